@@ -327,6 +327,25 @@ pub fn cross_size(ctx: &Ctx, rep: &mut Report) {
                     }
                     check_pair(&a, &b, "call history", &mut rep);
                 }
+                // a REJECTED call, then valid ones: a transform of an unsupported length panics
+                // (outside the property's domain; its outcome is ignored), and the next valid
+                // operations on this thread must be unaffected
+                if hi % 2 == 0 {
+                    let bad = [3usize, 5, 6, 7, 12, 100, 1025, 1536, 2047, 2048, 4096][(hi / 2) % 11];
+                    let junk: Vec<i16> = (0..bad).map(|i| (i % 7) as i16).collect();
+                    let j2 = junk.clone();
+                    let _ = monitored(move || vh::intt(&j2));
+                    if hi % 4 == 0 {
+                        let _ = monitored(move || vh::ntt(&junk));
+                    }
+                    let below = if bad.is_power_of_two() { 1024.min(bad) } else { 1usize << (usize::BITS - 1 - bad.leading_zeros()) }.min(1024);
+                    for n in [below, (below * 2).min(1024), (below / 2).max(1)] {
+                        let a: Vec<i64> = (0..n).map(|_| rng.gen_range(0..Q)).collect();
+                        let b: Vec<i64> = (0..n).map(|_| rng.gen_range(0..Q)).collect();
+                        check_pair(&a, &b, "after a rejected transform length", &mut rep);
+                    }
+                    rep.count("valid_operations_after_a_rejected_length", 3);
+                }
                 rep.count("call_histories", 1);
                 rep.nontrivial(format!("hist|{}", hi).as_bytes());
                 rep
@@ -340,6 +359,7 @@ pub fn cross_size(ctx: &Ctx, rep: &mut Report) {
     });
     rep.merge(r);
     rep.require("call_histories", 50);
+    rep.require("valid_operations_after_a_rejected_length", 30);
     rep.sample(json!({"walks": rounds, "sizes": sizes, "inputs": "the same low-degree coefficients embedded in every length, in one thread"}));
     rep.require("cross_size_walks", 3);
 }
